@@ -834,7 +834,9 @@ def build_exidx_elf(case):
     xidx = []
     for g, idxs in enumerate(groups):
         xidx.append(len(secs))
-        secs.append({'name': '.ARM.exidx' if g == 0 else '.ARM.exidx.text.second', 'sh_type': SHT_EXIDX, 'sh_flags': 0x82,
+        # an index table is recognised by its section TYPE; the name only has to begin with .ARM.exidx by convention (linker scripts make
+        # .ARM.exidx.ramcode and the like) and is free for the parser
+        secs.append({'name': case.get('idx_name', '.ARM.exidx') if g == 0 else '.ARM.exidx.text.second', 'sh_type': SHT_EXIDX, 'sh_flags': 0x82,
                      'sh_link': 1, 'data': b'\0' * (8 * len(idxs)), 'sh_addralign': 4, 'file_align': 4})
     nobi = None
     if case.get('nobits_before_tab'):
@@ -1225,6 +1227,8 @@ def gen_exidx_case(ch, tier):
     if ch.bool(0.25):
         case['nobits_before_tab'] = ch.choice([4, 8, 12, 0x20])
     if ch.bool(0.3):
+        case['idx_name'] = ch.choice(['.ARM.exidx.ramcode', '.ARM.exidx.text.hot', '.exidx', '.ARM.EXIDX', 'unwind_index'])
+    if ch.bool(0.3):
         case.update(tab_split=ch.int(0, 60), tab2_name=ch.choice(['.ARM.extab.text.startup', '.rodata', '.gcc_except_table', '.ARM.extab.text.unlikely']), tab2_first=ch.bool())
     return case
 
@@ -1360,6 +1364,7 @@ def sweep(tier):
                            'trail': [0, 0x12345678]})
         cases.append(_exidx_case(es, le, split=7))
         cases.append(_exidx_case(es, le, nobits_before_tab=8))
+        cases.append(_exidx_case(es, le, idx_name='.ARM.exidx.ramcode'))
         for k2, nm in enumerate(('.ARM.extab.text.startup', '.rodata')):
             cases.append(_exidx_case(es, le, tab_split=3 + 5 * k2, tab2_name=nm, tab2_first=bool(k2), split=5 if k2 else None))
         # counts beyond the usual range: the count field is a full byte
